@@ -85,6 +85,9 @@ def has_nonfinite(line):
 
 
 NAMES = ["a", "A", "ab", "Ab", "AB", "ä", "Ä", "x_1", "X_1"]
+# spellings whose lower case is not the Latin-1 one: other scripts, one-to-many mappings (İ -> i + U+0307), title-case digraphs, compatibility letters (Kelvin sign), and
+# names that merely look alike (ß / ss, ﬁ / fi are NOT the same key); names with a capital sigma are not modelled (final-sigma rule) and run against the oracles only
+WNAMES = ["ω", "Ω", "ж", "Ж", "ß", "ẞ", "ss", "SS", "İ", "i̇", "i", "I", "ı", "ǅ", "ǆ", "Ǆ", "\u212a", "k", "K", "ﬁ", "FI", "fi", "ᾈ", "ᾀ", "Σ", "σ", "ς", "ὈΔΥΣΣΕΎΣ", "ὀδυσσεύς"]
 
 
 def gen_env(tier, R):
@@ -130,6 +133,25 @@ def gen_env(tier, R):
             else:
                 ops.append(f"(remf {s(n)})")
         out.append(f"(env _ {qs} (ops {' '.join(ops)}))")
+    wqs = "(qs " + " ".join(s(n) for n in WNAMES) + ")"
+    for i in range(800 if tier == 'quick' else 30000):
+        pool = WNAMES[:-5] if i % 4 else WNAMES
+        k = R.randint(2, 30 if tier == 'quick' else 120)
+        ops = []
+        for _ in range(k):
+            n = R.choice(pool)
+            r = R.random()
+            if r < 0.35:
+                ops.append(f"(addv {s(n)} {R.choice(vals)})")
+            elif r < 0.5:
+                ops.append(f"(remv {s(n)})")
+            elif r < 0.53:
+                ops.append("(clrv)")
+            elif r < 0.85:
+                ops.append(f"(addf {s(n)} {R.choice('012')})")
+            else:
+                ops.append(f"(remf {s(n)})")
+        out.append(f"(env _ {wqs if i % 4 == 0 else '(qs ' + ' '.join(s(n) for n in WNAMES[:-5]) + ')'} (ops {' '.join(ops)}))")
     out += gen_respell(tier, R)
     # overwriting a function with the same native function but another arity / purity, under respelled names (oracle against a reference map)
     for i in range(300 if tier == 'quick' else 20000):
